@@ -241,6 +241,9 @@ func main() {
 		return len(b.List) >= 4 && has(b.List[0], `^idx\.mtx\.Lock\(\)$`) && has(b.List[1], `^defer idx\.mtx\.Unlock\(\)$`) &&
 			has(b.List[2], `^rowID := idx\.nextRowID$`) && has(b.List[3], `^defer func\(\) \{ idx\.nextRowID\+\+ \}\(\)$`)
 	}
+	noGo := func(b *ast.BlockStmt) bool { return !has(b, `\bgo (func|idx\.|\w+\()`) }
+	fact("addRowNoGoroutineMem", fn("writer.go", "IndexWriter", "AddRow"), noGo)
+	fact("addRowNoGoroutineBig", fn("writer_big.go", "BigIndexWriter", "AddRow"), noGo)
 	fact("addRowLockedMem", fn("writer.go", "IndexWriter", "AddRow"), addRow)
 	fact("addRowLockedBig", fn("writer_big.go", "BigIndexWriter", "AddRow"), addRow)
 	batch := func(name string, fd *ast.FuncDecl, re string) {
@@ -461,6 +464,17 @@ func main() {
 		return len(b.List) >= 2 && has(b.List[0], `^if n := numInput\(stmt\.q\); len\(values\) < n \{ return nil, `) &&
 			has(b.List[1], `^q := queryparser\.ReplacePlaceholders\(stmt\.q, values\)$`)
 	}
+	fact("prepareParsesEachTime", fn(dr, "fileConn", "prepare"), func(b *ast.BlockStmt) bool {
+		// the statement is built from a fresh parse of exactly this text; nothing is looked up by a digest of it
+		return len(b.List) == 3 && has(b.List[0], `^q, err := queryparser\.ParseQuery\(query\)$`) && has(b.List[2], `^return &fileStmt\{ c: c, q: q, \}, nil$`)
+	})
+	fact("grpcQueryFreshContext", fn(dr, "grpcStmt", "query"), func(b *ast.BlockStmt) bool {
+		return has(b, `stmt\.c\.client\.Query\(context\.Background\(\), &updogv1\.QueryRequest\{ Queries: \[\]\*updogv1\.Query\{q\}, \}\)`)
+	})
+	fact("rowCountIs64Bit", fn(dr, "rows", "Next"), func(b *ast.BlockStmt) bool {
+		f := load(dr)
+		return has(b, `= int64\(r\.rows\[r\.idx\]\.count\)`) && has(f, `type row struct \{ fields \[\]string count uint64 \}`)
+	})
 	fact("fileStmtChecksArgs", fn(dr, "fileStmt", "query"), chk)
 	fact("grpcStmtChecksArgs", fn(dr, "grpcStmt", "query"), chk)
 	fact("newRowsOnGroupBy", fn(dr, "", "newRows"), func(b *ast.BlockStmt) bool {
@@ -497,7 +511,7 @@ func main() {
 			has(b, `default: return (fmt\.Errorf|errors\.New)\(`) && strings.Count(flat(b), "if v == nil {") == 4
 	})
 	fact("createShape", fn("cmd/updog/create.go", "", "createCmd"), func(b *ast.BlockStmt) bool {
-		return has(b, `header = normalizeHeader\(header\)`) && has(b, `for idx, v := range record \{ k := header\[idx\] values\[k\] = v \}`) &&
+		return has(b, `header = normalizeHeader\(header\)`) && has(b, `idx := updog\.NewIndexWriter\(cfg\.outputFile\)`) && has(b, `for idx, v := range record \{ k := header\[idx\] values\[k\] = v \}`) &&
 			has(b, `idx, err := updog\.NewBigIndexWriter\(db, tempDB\) if err != nil \{ return [^}]*\} defer idx\.Close\(\)`) &&
 			has(b, `db, err := bbolt\.Open\(cfg\.outputFile, 0644, &bbolt\.Options\{OpenFile: openfile\.OpenFile\(openfile\.Options\{FailIfFileExists: true\}\)\}\)`)
 	})
